@@ -436,6 +436,8 @@ def run(ctx):
                        "distinct by (config, schedule)" % maxsteps)
     ctx.log("ran %d schedules on the real ThreadWorker; %d with oracle failures" % (len(runs), nfail))
     report_oracle(ctx, runs)
+    if not quick:
+        real_process_probe(ctx)
     bad = ctx.correspond("sched", HEADER, cases, shard=100)
     if bad:
         i, m, im = bad[0]
@@ -541,3 +543,82 @@ def normalize(s):
     if s[0] == "m":
         return ("m", [tuple(e) for e in s[1]], s[2])
     return tuple(s)
+
+
+# ---------------------------------------------------------------------------------------------------------
+# thorough tier, supporting exploration: the two known findings on a real gunicorn process with real sockets
+# ---------------------------------------------------------------------------------------------------------
+
+def real_process_probe(ctx):
+    import os
+    import socket
+    import subprocess
+    import sys
+    import tempfile
+    import time
+    d = tempfile.mkdtemp(prefix="c13-real-", dir=str(vlib.VERIF / ".build"))
+    res = {}
+    try:
+        with open(os.path.join(d, "app13.py"), "w") as fh:
+            fh.write("def app(environ, start_response):\n"
+                     "    body = b'ok'\n"
+                     "    start_response('200 OK', [('Content-Type','text/plain'),('Content-Length',str(len(body)))])\n"
+                     "    return [body]\n")
+        for name, wc, th, ka in (("D20", 1, 1, 5), ("D21", 3, 1, 2)):
+            sockp = os.path.join(d, name + ".sock")
+            env = vlib.impl_env()
+            env["PYTHONPATH"] = str(vlib.REPO) + os.pathsep + d
+            p = subprocess.Popen([sys.executable, "-m", "gunicorn", "-k", "gthread", "--threads", str(th),
+                                  "--worker-connections", str(wc), "--keep-alive", str(ka), "-w", "1",
+                                  "-b", "unix:" + sockp, "--chdir", d, "app13:app"],
+                                 env=env, stdout=subprocess.DEVNULL, stderr=subprocess.DEVNULL)
+            try:
+                for _ in range(100):
+                    if os.path.exists(sockp):
+                        break
+                    time.sleep(0.1)
+                time.sleep(1.0)
+                c = socket.socket(socket.AF_UNIX, socket.SOCK_STREAM)
+                c.connect(sockp)
+                c.settimeout(4.0)
+                if name == "D20":
+                    time.sleep(1.5)                 # accepted and idle: the worker is at capacity
+                    c.sendall(L.REQ["KA"])
+                    try:
+                        data = c.recv(4096)
+                    except socket.timeout:
+                        data = None
+                    res[name] = "no answer within 4 s" if data is None else "answered (%d bytes)" % len(data)
+                else:
+                    c.sendall(L.REQ["KA"] + L.REQ["KA"])
+                    got = b""
+                    t0 = time.time()
+                    try:
+                        while time.time() - t0 < ka + 3:
+                            chunk = c.recv(4096)
+                            if not chunk:
+                                break
+                            got += chunk
+                    except (socket.timeout, ConnectionResetError):
+                        pass
+                    res[name] = "%d response(s) for 2 pipelined requests" % got.count(b"HTTP/1.1 ")
+                c.close()
+            finally:
+                p.terminate()
+                try:
+                    p.wait(10)
+                except Exception:
+                    p.kill()
+    except Exception as e:      # supporting exploration only
+        res["error"] = repr(e)
+    finally:
+        import shutil
+        shutil.rmtree(d, ignore_errors=True)
+    ctx.extra["real_process_probe"] = res
+    ctx.log("real gthread worker over unix sockets: %r" % (res,))
+    if res.get("D20", "").startswith("no answer"):
+        ctx.violation("real process: " + res["D20"], {"kind": "gthread-capacity-stall", "real_process": True},
+                      key="gthread-capacity-stall")
+    if res.get("D21", "").startswith("1 response"):
+        ctx.violation("real process: " + res["D21"], {"kind": "gthread-pipelined-request-dropped", "real_process": True},
+                      key="gthread-pipelined-request-dropped")
